@@ -60,6 +60,13 @@ thread_local! {
     static LAST_REF_STEPS: std::cell::Cell<u64> = const { std::cell::Cell::new(0) };
 }
 
+pub fn last_ref_get() -> u64 {
+    LAST_REF_STEPS.with(|c| c.get())
+}
+pub fn last_ref_set(v: u64) {
+    LAST_REF_STEPS.with(|c| c.set(v));
+}
+
 pub type Inst<T> = Arc<dyn Fft<T>>;
 
 /// The bound checks RustFFT keeps only in debug builds (`debug_assert!(<expr>)` guarding an unchecked access), read
